@@ -103,19 +103,32 @@ def gen_history(seed, tier):
             c = _cost_for_rate(t)
             rows.append([c * r.uniform(0.8, 1.2) for _ in range(m)])
     init = [r.uniform(0.5, 5.0) for _ in range(m)]
+    lookup = False
+    if r.random() < 0.2:
+        # generations of different sizes (variable-population optimizers)
+        rows = [row[:r.choice([1, 2, 3])] if len(row) > 1 else row * r.choice([1, 2, 3]) for row in rows]
+    if r.random() < 0.12:
+        # infinite / undefined costs (penalised or failed evaluations): rates become 1, inf or NaN
+        lookup = True
+        for _ in range(r.randrange(1, 4)):
+            row = rows[r.randrange(L)]
+            row[r.randrange(len(row))] = r.choice([math.inf, math.inf, -math.inf, math.nan])
     rates = [float(expected_rate(row)) for row in rows]
     changes = [rates[j] - rates[j - 1] for j in range(1, L)]
+    finite = [x for x in rates if math.isfinite(x)] or [0.5]
     # criteria, placed on the decision boundaries
     max_cycles = r.choice([1, 2, max(1, L - 1), L, L + 1, L + 5, r.randrange(1, L + 3)])
     fe = None
     if r.random() < 0.6:
         j = r.randrange(L)
         fe = r.choice([rates[j], math.nextafter(rates[j], math.inf), math.nextafter(rates[j], -math.inf),
-                       rates[j], 0.0, min(rates), min(rates) * 0.999, max(rates) + 1.0, -1.0])
+                       rates[j], 0.0, min(finite), min(finite) * 0.999, max(finite) + 1.0, -1.0])
+        if not math.isfinite(fe):
+            fe = r.choice([min(finite), 0.0, 1.0])
     es = None
     if r.random() < 0.6:
         p = r.choice([1, 1, 2, 2, 3, 4])
-        negs = [abs(d) for d in changes if d < 0]
+        negs = [abs(d) for d in changes if d < 0 and math.isfinite(d)]
         if negs and r.random() < 0.7:
             d = r.choice(negs)
             md = r.choice([d, math.nextafter(d, math.inf), math.nextafter(d, 0.0), d * 2, max(negs) * 1.01,
@@ -126,6 +139,7 @@ def gen_history(seed, tier):
     if fe is None and es is None and r.random() < 0.5:
         max_cycles = r.choice([1, L, L + 1])
     return {"kind": "C04", "seed": seed, "minmax": r.choice(["min", "min", "max"]), "init": init, "script": rows,
+            "lookup": lookup,
             "max_cycles": max_cycles, "fitness_error": fe, "early_stopping": es}
 
 
@@ -142,10 +156,19 @@ def run_scripted(desc):
     want, why = first_stop(rate_of, desc["max_cycles"], desc["fitness_error"], desc["early_stopping"],
                            horizon=max(desc["max_cycles"], L) + 5)
     es = pv.EarlyStopping(**desc["early_stopping"]) if desc["early_stopping"] else None
+    table = None
+    tdesc = dict(IDENTITY_TASK, minmax=desc["minmax"])
+    if desc.get("lookup"):
+        table = []
+        for c in list(desc["init"]) + [c for row in script for c in row]:
+            if not any(v == c or (v != v and c != c) for v in table):
+                table.append(c)
+        if len(table) < 2:
+            table.append(12345.0)
+        tdesc = dict(tdesc, vars=[{"type": "discrete", "name": "c", "choices": table}])
     cfg = cl["ScriptedConfig"](population_size=len(desc["init"]), max_cycles=desc["max_cycles"],
                                fitness_error=desc["fitness_error"], early_stopping=es, init=desc["init"],
-                               script=script)
-    tdesc = dict(IDENTITY_TASK, minmax=desc["minmax"])
+                               script=script, table=table)
     with Session(desc["seed"], step_cap=400_000) as s:
         opt = cl["ScriptedOptimizer"](cfg)
         r = s.call(opt, tasks.build_task(tdesc), entropy_label="c04")
@@ -184,11 +207,12 @@ def run_scripted(desc):
                             "msg": f"rates[{k}] = {res.rates[k]!r}, |1 - mean fitness| of that generation is "
                                    f"{rate_of(k + 1)!r}"})
                 break
-            got = sorted(a.cost for a in res.evolution[k + 1].agents)
-            if not oracles_g._deep_equal(got, sorted(script[min(k, L - 1)])):
+            key = lambda c: (1, 0.0) if c != c else (0, c)
+            got = sorted((a.cost for a in res.evolution[k + 1].agents), key=key)
+            if not oracles_g._deep_equal(got, sorted(script[min(k, L - 1)], key=key)):
                 out.append({"cls": ["scripted", "generation_mismatch"],
                             "msg": f"generation {k + 1} holds costs {got[:4]}, the script installed "
-                                   f"{sorted(script[min(k, L - 1)])[:4]}"})
+                                   f"{sorted(script[min(k, L - 1)], key=key)[:4]}"})
                 break
     return out, stats
 
